@@ -3,12 +3,12 @@ package main
 // Translation of typed spec expressions (overlay AST) to SMT terms.
 
 import (
-	"regexp"
 	"fmt"
 	"go/ast"
 	"go/constant"
 	"go/token"
 	"go/types"
+	"regexp"
 	"strings"
 
 	"golang.org/x/tools/go/packages"
@@ -675,7 +675,6 @@ func (e *SpecEnv) callSpec(n ast.Node, sp *SpecFn, args []Val) Val {
 // ---------------------------------------------------------------------------
 // pure spec functions -> define-fun / define-fun-rec
 
-
 // callPureSpec applies a heap-independent spec function by name; slice-typed
 // arguments are passed as (contents, off, len) snapshots.
 func (vc *VC) callPureSpec(e *SpecEnv, sp *SpecFn, args []Val) Val {
@@ -1173,9 +1172,11 @@ func replaceSym(text, sym, with string) string {
 // instance of a quantifier over array index q (pattern (select arr q)). Each
 // added formula is a tautology of 64-bit arithmetic (checked once by the
 // self-test, see selftest/range_forms.smt2), so it can be assumed anywhere:
-//   relative index k = q - off (off == "" means k = q), guard lo <=s k <s hi
-//   (1) lo <=s hi                     ==> (guard <=> (k-lo) <u (hi-lo))
-//   (2) 0<=off<2^40, |lo|,|hi|<2^40   ==> (guard <=> off+lo <=s q <s off+hi)
+//
+//	relative index k = q - off (off == "" means k = q), guard lo <=s k <s hi
+//	(1) lo <=s hi                     ==> (guard <=> (k-lo) <u (hi-lo))
+//	(2) 0<=off<2^40, |lo|,|hi|<2^40   ==> (guard <=> off+lo <=s q <s off+hi)
+//
 // Comparisons of sums are hard for bit-blasting; with the forms side by side
 // most range reasoning becomes propositional.
 func (vc *VC) rangeForms(q, arr, off, lo, hi string) {
